@@ -11,12 +11,12 @@
 (* is tested), FALSE the repaired expansion.                                        *)
 EXTENDS Aggregates, CoPatterns, Patterns, TLC
 
-CONSTANTS N, BS, Modes, EpsDens, LiftBug, GenMasks
+CONSTANTS N, BS, Modes, EpsDens, LiftBug, GenLo, GenHi     \* masks GenLo..GenHi for kind "gen" (empty when GenLo > GenHi)
 VARIABLES kind, A, Ab, eps, pc, out
 vars == <<kind, A, Ab, eps, pc, out>>
 
 Init == /\ \/ kind = "kron" /\ A \in CoMasks(N, FALSE) \X Modes
-           \/ kind = "gen"  /\ A \in {m \in GenMasks : HasDiag(N * BS, m)} \X {0, 1}
+           \/ kind = "gen"  /\ A \in {m \in GenLo..GenHi : HasDiag(N * BS, m)} \X {0, 1}
         /\ \E d \in EpsDens : eps = <<1, d>>
         /\ Ab = <<>> /\ pc = "gen" /\ out = <<>>
 Gen  == /\ pc = "gen" /\ pc' = "in" /\ UNCHANGED <<kind, eps, out>>
